@@ -34,8 +34,9 @@ pub struct Mutant {
     pub bytes: Vec<u8>,
 }
 
-/// the last one is 'A', 0xC3 (the first byte of a two-byte UTF-8 sequence), NUL: a string cut inside a character
-pub const SUBST: [u32; 10] = [0, 1, 2, 0xFFFF_FFFF, 0x7FFF_FFFE, 0x4000_0000, 0x0041_4141, 0x4141_4141, 0x0001_0000, 0x0000_C341];
+/// the last two: "ab\0X" (a non-zero byte after the terminator inside its word) and "ab\x01\0" (a 0x01 byte next to
+/// the terminator: exact-zero-byte tricks misfire there); before them: 'A', 0xC3 (the first byte of a two-byte UTF-8 sequence), NUL: a string cut inside a character
+pub const SUBST: [u32; 12] = [0, 1, 2, 0xFFFF_FFFF, 0x7FFF_FFFE, 0x4000_0000, 0x0041_4141, 0x4141_4141, 0x0001_0000, 0x0000_C341, 0x5800_6261, 0x0001_6261];
 
 pub const HOSTILE_OPCODES: [u16; 10] = [0, 9, 0xFFFF, 43, 50, 52, 251, 7, 12, 5];
 
